@@ -191,6 +191,16 @@ class HalfsetSpec(kernels.InvSpec):
     def __init__(self, hs, n, first):
         self.hs, self.n, self.first = hs, n, first
 
+    def resolve(self, env):
+        """the list of new numbers: the local that holds a one-element list (the first number) when the loop starts"""
+        e = env
+        while e is not None:
+            for k, v in e.vars.items():
+                if (isinstance(v, list) and len(v) == 1 and isinstance(v[0], (SV, int))) or isinstance(v, kernels.AppendLog):
+                    return {"subtomo_id_num": k}
+            e = e.parent
+        return {}
+
     def ghost_init_from(self, S_init, objs):
         return {"ids": (lambda i, c0=S_init["c"]: c0)}
 
@@ -254,15 +264,19 @@ class HalfsetRenumbering(Contract):
 
         class Me:
             df = Df()
-        cx.range_inv_spec_factory = lambda rng, env: HalfsetSpec(hs_fn, n.t, None)
+        def mkspec(rng, env):
+            rec["spec"] = HalfsetSpec(hs_fn, n.t, None)
+            return rec["spec"]
+        cx.range_inv_spec_factory = mkspec
         it = common.motl_interp()
-        f = it.block_function("RelionMotl.parse_subtomo_id", lambda s: s.startswith("halfset_num = "), lambda s: s.startswith("self.df['subtomo_id'] = subtomo_id_num"),
-                              ["self", "relion_df"], ["subtomo_id_num"])
+        f = it.block_function("RelionMotl.parse_subtomo_id", lambda s: s.startswith("halfset_num = "), lambda s: s.startswith("self.df['subtomo_id'] = "),
+                              ["self", "relion_df"], [])
 
         def thunk():
             rec.clear()
-            out = f(Me(), Rel())
-            return {"log": out[0], "assigned": rec.get("assigned", [])}
+            f(Me(), Rel())
+            spec = rec.get("spec")
+            return {"log": getattr(spec, "bound_objects", {}).get("subtomo_id_num") if spec is not None else None, "assigned": rec.get("assigned", [])}
         return thunk, {"n": n, "hs": hs_fn, "lines": it.block_lines}
 
     def post(self, cx, cfg, inp, res):
